@@ -375,6 +375,24 @@ func databases(family string, tier int) []database {
 		rows := []row{clean[0], {0, T0 + 2*sec, o.line}, clean[1]}
 		out = append(out, mkDB("odd_"+o.name, rows, metric))
 	}
+	// series identity ("distinct label sets stay distinct series"): extracted label sets that a sloppy fingerprint
+	// confuses - transposed pair {p="r"} / {r="p"}, value equal to its name {d="d"} / {t="t"} (and against no
+	// label at all), name/value boundary {a="bc"} / {ab="c"}, values permuted between two names - two lines of one
+	// stream in one bucket per database, and all of them together.
+	idLines := []string{`{}`, `{"p":"r"}`, `{"r":"p"}`, `{"d":"d"}`, `{"t":"t"}`, `{"a":"bc"}`, `{"ab":"c"}`,
+		`{"p":"r","q":"s"}`, `{"p":"s","q":"r"}`}
+	if family == "logfmt" {
+		idLines = []string{``, `p=r`, `r=p`, `d=d`, `t=t`, `a=bc`, `ab=c`, `p=r q=s`, `p=s q=r`}
+	}
+	for _, pr := range [][2]int{{1, 2}, {3, 4}, {0, 3}, {5, 6}, {7, 8}, {1, 3}} {
+		out = append(out, mkDB(fmt.Sprintf("id_%d_%d", pr[0], pr[1]), []row{{0, T0 + sec, idLines[pr[0]]},
+			{0, T0 + 2*sec, idLines[pr[1]]}}, true))
+	}
+	var idAll []row
+	for i, l := range idLines {
+		idAll = append(idAll, row{0, T0 + int64(i+1)*400_000_000, l})
+	}
+	out = append(out, mkDB("id_all", idAll, true))
 	// the big database: 3 series x 4 entries
 	var big []row
 	pool := jsonPool
